@@ -97,8 +97,8 @@ Iterate(inst, L, s, r) ==
                    M    |-> L.M]
 
 LoopSteps(inst, L) ==
-    {Iterate(inst, L, s, r) : <<s, r>> \in
-        {x \in L.pool \X RisesOf(inst.E) : x[2] \in Best(inst, x[1], L.rem[x[1]])}}
+    {Iterate(inst, L, x[1], x[2]) : x \in
+        {y \in L.pool \X RisesOf(inst.E) : y[2] \in Best(inst, y[1], L.rem[y[1]])}}
 
 LoopDone(L) == L.pool = {}
 
